@@ -6,6 +6,10 @@ symbol-map model panics, the read-only API / goto_definition / references / iter
 at any position, and `find_field` / `is_subclass_of` terminate within fuel = number of records
 (`C03_symbol_map_total_partial`); the fixes fb9cd66 (D3) and 751cf5a (D11) are shown necessary
 (`C03_self_parent_diverges`, `C03_unguarded_range_query_panics`).
+Tie (T): tools/translate/t_panicsites.py regenerates the inventory of every panic site of crates/ide/src (panic!,
+unreachable!, unimplemented!, assert!, unwrap, expect, index expressions, asserting library calls) on every run;
+`C03_panic_sites_inventoried` demands a disposition (proved at op level / oracle / other property) for each: a new
+or moved site breaks the obligation.
 Tie (C): real op log (hook H3) replayed through the extracted model; `ops_ids_wf` evaluated on every real log;
 state and goto/references answers compared at every offset; find_field / is_subclass_of evaluated in the model
 for every record x field name / record pair.
@@ -17,18 +21,21 @@ acyclic workspaces, in a child process with a 2 MiB analysis-thread stack and a 
 overflow or no answer within the limit is a violation."""
 import json
 import os
+import re
 
 import symgen
 import symlib as L
 import vlib
 
-THEOREMS = ["C03_symbol_map_total_partial", "C03_unguarded_range_query_panics", "C03_self_parent_diverges", "C03_nonvacuous"]
+THEOREMS = ["C03_symbol_map_total_partial", "C03_unguarded_range_query_panics", "C03_self_parent_diverges", "C03_nonvacuous",
+            "C03_panic_sites_inventoried"]
 TRUSTED = [
     "Coq 8.16.1 kernel; vm_compute only in the closed Examples / witnesses",
     "PARTIAL: proved for the symbol-map layer at op level (symbol_map.rs, symbol_map/record.rs recursion, goto_definition.rs, references.rs, "
     "the range query of inlay_hint.rs); the indexer (index.rs, index/*.rs), hover, completion, document_symbol, folding_range, document_link, "
     "diagnostics and the native stack are covered only by the oracle",
     "hook H3 logs every mutating SymbolMap call (cfg tablegen_lsp_verif)",
+    "translator t_panicsites.py (regex scan of crates/ide/src up to the first #[cfg(test)] of each file)",
     "modelled, not verified: iset::IntervalMap (panics on an empty query / insert), id_arena, HashMap/IndexMap",
     "the oracle's stack bound (2 MiB, the size of a tokio worker stack) and time limit (20 s per workspace) are what 'overflow' and 'hang' mean here",
     "extraction (ExtrOcamlBasic), symmap_driver.ml, harness symdump.rs, lib/symlib.py, lib/symgen.py",
@@ -103,7 +110,14 @@ def corpus_inputs(ctx):
 
 def run(ctx):
     bindir = vlib.build_harness(True, bins=["symdump"])
-    fails = vlib.proof_step(ctx, "TG.Props.C03", THEOREMS, ["props/C03.vo"], TRUSTED, translators=[])
+    fails = vlib.proof_step(ctx, "TG.Props.C03", THEOREMS, ["props/C03.vo"], TRUSTED, translators=["t_panicsites"])
+    try:
+        gen = open(vlib.COQ + "/gen/GenPanicSites.v").read()
+        ctx.cov["panic_sites_inventoried"] = gen.count("%nat)")
+        disp = open(vlib.COQ + "/proofs/SymbolPanicSites.v").read()
+        ctx.cov["panic_sites_by_disposition"] = {k: disp.count("%nat), " + k) for k in ("Proved", "Oracle", "OutOfScope")}
+    except OSError:
+        pass
     exe = vlib.build_model("symmap")
     wss, kinds = gen_inputs(ctx)
     res = L.evaluate(bindir, exe, wss)
@@ -144,7 +158,7 @@ def run(ctx):
     bad_inputs.sort(key=lambda t: len(json.dumps(t[0]["ws"]["files"])))
     seen = set()
     for e, kind in bad_inputs:
-        cls = e["c03"].split(":")[0][:60]
+        cls = re.sub(r"[0-9]+", "N", e["c03"])[:80]
         if cls in seen or len(seen) >= 3:
             continue
         seen.add(cls)
